@@ -11,7 +11,7 @@ for qn,u in list(U.REGISTRY.items()):
     print('   covers',r.covers,'canary',r.canary)
     print('   slowest:',[(o.name,round(o.seconds,1)) for o in sorted(r.obls,key=lambda o:-o.seconds)[:4]])
     if r.failed or r.error:
-        f,t,n=U.bmc_falsify(u); print('   BMC tried',t,'notes',n)
+        f,t,n=U.bmc_falsify(u); print('   BMC tried',t,'notes',[str(x)[:200] for x in n[:3]])
         for x in f: print('    ',x['obligation'],x['native'])
         rf,tr=U.random_falsify(u,1,200); print('   RANDOM tried',tr, rf and rf['native'])
 for l in U.LEMMAS:
